@@ -205,14 +205,36 @@ def r08_3(q, R, spec):
         fors = [n for n in H.walk(mb["body"]) if n.get("k") == "for"]
         ok = False
         got = None
-        if res and res[0] == "local" and len(calls) == 1 and len(fors) == 1:
+        # the iterator-chain spelling `iter.try_for_each(|child| add_child(&mut map, child?).map(|_| ()))?` is the same loop: the closure
+        # body is the loop body, its value (the add_child result) leaves through the `?` on try_for_each
+        tfe = [n for n in H.walk(mb["body"]) if n.get("k") == "mcall" and n["name"] == "try_for_each" and len(n["args"]) == 1
+               and H.peel(n["args"][0]).get("k") == "closure"]
+        loops = [(f["iter"], f["body"], None) for f in fors] + [(n["recv"], H.peel(n["args"][0])["body"], n) for n in tfe]
+        if res and res[0] == "local" and len(calls) == 1 and len(loops) == 1:
             env = U.build_env(sm["params"], extra={"map": res})
             c = calls[0]
+            it, lbody, tnode = loops[0]
             args = [nz.term(a) for a in c["args"]]
             got = [U.show(a) for a in args]
-            ok = (args == [U.parse(s, env) for s in sm["call"]] and nz.term(fors[0]["iter"]) == U.parse(sm["over"], env)
-                  and any(x is c for x in H.walk(fors[0]["body"])) and U.cond_terms(nz, fors[0]["body"], c) == []
-                  and U.is_tried(mb["body"], c) and _tried_value(mb["body"], c["args"][1])
+            if tnode is None:
+                tried = U.is_tried(mb["body"], c)
+            else:
+                tails = H.tail_nodes(lbody)
+                wrapped = [x for x in H.walk(lbody) if id(x) in tails and any(y is c for y in H.walk(x))]
+                tried = bool(wrapped) and U.is_tried(mb["body"], tnode)
+            want = [U.parse(s, env) for s in sm["call"]]
+            if tnode is None:
+                args_ok = args == want
+            else:
+                clo = H.peel(tnode["args"][0])
+                pids = [i for pp in clo["params"] for i, _ in H.pat_bindings(pp)]
+                a1 = H.local_of(H.peel(c["args"][1], tries=True))
+                args_ok = len(args) == 2 and args[0] == want[0] and len(pids) == 1 and a1 is not None and a1[0] == pids[0]
+            # `let mut iter = iter.into_iter()` (needed to call try_for_each) names the same iterator as `let iter = ..`
+            same_iter = nz.term(it) == U.parse(sm["over"], env) or (tnode is not None and U.show(nz.term(it)).rstrip("'") == U.show(U.parse(sm["over"], env)))
+            ok = (args_ok and same_iter
+                  and any(x is c for x in H.walk(lbody)) and U.cond_terms(nz, lbody, c) == []
+                  and tried and _tried_value(mb["body"], c["args"][1])
                   and len(U.mutations_of(mb["body"], res[1])) == 0)
         R.inst(rid, "map_with_key_from_result_iter:every-element-and-error", ok, sp=mb["sp"],
                expect="for child in iter { add_child(&mut map, child?)?; } Ok(map)", got=got)
